@@ -67,3 +67,19 @@ Example C06_nonvacuous :
   let c := mkCfg [(1, fr)] [mkSvc Gen.scheme_udp (Some 53) false true []] false 1 in
   exists p, compile c = Ok p /\ check_in p 17 53 fr = true /\ check_in p 6 53 fr = false /\ check_in p 17 53 (fr + 1) = false.
 Proof. cbv zeta. eexists. split; [vm_compute; reflexivity|]. repeat split; vm_compute; reflexivity. Qed.
+
+(* Histories on one 5-tuple: whatever status a cached connection state carries — denied,
+   prohibited, or one an error ping wrote over it (unreachable, rejected) — an inbound packet is
+   delivered only if that status is "allowed"; and an error ping never turns a connection that
+   was not allowed into an allowed one. *)
+Theorem C06_inbound_cached_not_allowed_drops : forall c pol ch handle unsealed fsrc fdst k inb st,
+  cache_get (p_dst k, p_src k, p_proto k, dport_of k, sport_of k) ch = Some (inb, st) -> st <> st_allowed ->
+  fst (inbound c pol ch handle unsealed fsrc fdst k) = Drop.
+Proof. exact inbound_cached_not_allowed_drops. Qed.
+Print Assumptions C06_inbound_cached_not_allowed_drops.
+
+Theorem C06_mark_router_keeps_denied : forall ch k remote st inb s,
+  cache_get k ch = Some (inb, s) -> s <> st_allowed -> st <> st_allowed ->
+  exists s', cache_get k (mark_router ch remote st) = Some (inb, s') /\ s' <> st_allowed.
+Proof. exact mark_router_keeps_denied. Qed.
+Print Assumptions C06_mark_router_keeps_denied.
